@@ -203,7 +203,9 @@ def run(ctx):
         f1, f2 = rng.choice([(None, None), (1, 2), (1, None), (2, 3)])
         logs = []
         datas = []
+        import random as _random
         for (mr, mf) in ((a, f1), (b, f2)):
+            _random.seed(20260930)      # the Y decoder's documented coin toss between exactly tied cosets
             rec = Rec(get(em))
             if T:
                 d = app.run_ftp(get(code), T, rec, get(dec), p, rng.choice([None, 0.1]) if False else None,
@@ -224,6 +226,7 @@ def run(ctx):
             ctx.violation('longer-run-shorter', 'larger limits gave fewer runs', rep)
         # repeating the very same run gives identical data
         rec = Rec(get(em))
+        _random.seed(20260930)
         kw = dict(max_runs=a, max_failures=f1, random_seed=seed)
         d = app.run_ftp(get(code), T, rec, get(dec), p, None, **kw) if T else app.run(get(code), rec, get(dec), p, **kw)
         if {k: v for k, v in d.items() if k != 'wall_time'} != {k: v for k, v in datas[0].items() if k != 'wall_time'}:
